@@ -5,8 +5,9 @@ package main
 // struct field names above ASCII is a parameter of the Coq theorems; the model
 // runner uses this sample).
 //
-// Truthy: every method must be `return <bool expr>` over the receiver, where
-// the expression is built from
+// Truthy: every method body must be a chain of `if <bool expr> { return <bool expr> }`
+// (with or without else) ending in `return <bool expr>`, which is read as the
+// nested conditional it is; the expressions are over the receiver and built from
 //    true false            bool(v)
 //    v != 0  v == 0  v != 0.0 ...        (Int, Float: parameter is_zero)
 //    v != "" v == "" len(v) ==/!=/> 0    (String: parameter is_empty)
@@ -14,11 +15,18 @@ package main
 //    float64(v) != math.NaN()            -> true   } what Go's comparison with
 //    float64(v) == math.NaN()            -> false  } a NaN operand denotes
 //    !e   e && e   e || e   (e)
-// Equals: every method must be one of
+// Equals: the body is evaluated once for each of the eight kinds the operand can
+// have (a partial evaluation: `o, ok := other.(T)` makes ok a known boolean and o a
+// value of kind T, a type switch selects its clause, `if`, `!`, `&&`, `||` over known
+// booleans are decided, short-circuit included) and must reduce to true, false or one
+// comparison CMP of the receiver with the asserted operand; so
 //    _, ok := other.(T); return ok
 //    if o, ok := other.(T); ok { return CMP }; return false
+//    o, ok := other.(T); return ok && CMP          o, ok := ...; if !ok { return false }; return CMP
 //    switch o := other.(type) { case T: return CMP ... }; return false
-// with CMP one of  v == o | bool(v) == bool(o) | string(v) == string(o) |
+// are all read alike.  A call of a one-line helper of the same file
+// (`func same(a, b interface{}) bool { return <expr> }`) is replaced by its body.
+// CMP is one of  v == o | bool(v) == bool(o) | string(v) == string(o) |
 // int64(v) == int64(o)            -> mode 1 (same-type scalar comparison)
 // float64(v) == float64(o)        -> mode 2 (numeric conversion)
 // reflect.ValueOf(v).Pointer() == reflect.ValueOf(o).Pointer() -> mode 3 (identity)
@@ -211,6 +219,74 @@ func (c truthyCtx) truthyExpr(e ast.Expr) (string, bool) {
 	return "", false
 }
 
+// truthyBody reads a statement list that returns on every path:
+//
+//	return e                          -> e
+//	if c { return a }; rest           -> if c then a else rest
+//	if c { return a } else { rest' }  -> if c then a else rest'   (nothing may follow)
+//
+// the conditional is written with && || negb (simplified when a branch is a literal).
+func (c truthyCtx) truthyBody(st []ast.Stmt) (string, bool) {
+	if len(st) == 0 {
+		return "", false
+	}
+	switch s := st[0].(type) {
+	case *ast.ReturnStmt:
+		if len(s.Results) != 1 || len(st) != 1 {
+			return "", false
+		}
+		return c.truthyExpr(s.Results[0])
+	case *ast.IfStmt:
+		if s.Init != nil {
+			return "", false
+		}
+		cond, ok := c.truthyExpr(s.Cond)
+		if !ok {
+			return "", false
+		}
+		thenE, ok := c.truthyBody(s.Body.List)
+		if !ok {
+			return "", false
+		}
+		var elseE string
+		switch e := s.Else.(type) {
+		case nil:
+			elseE, ok = c.truthyBody(st[1:])
+		case *ast.BlockStmt:
+			// the then-branch returns on every path, so what follows the if statement continues the else-branch only
+			elseE, ok = c.truthyBody(append(append([]ast.Stmt{}, e.List...), st[1:]...))
+		case *ast.IfStmt:
+			elseE, ok = c.truthyBody(append([]ast.Stmt{e}, st[1:]...))
+		default:
+			return "", false
+		}
+		if !ok {
+			return "", false
+		}
+		return coqIte(cond, thenE, elseE), true
+	}
+	return "", false
+}
+
+// coqIte: if c then a else b over booleans, in the && || negb fragment.
+func coqIte(c, a, b string) string {
+	switch {
+	case a == "true" && b == "false":
+		return c
+	case a == "false" && b == "true":
+		return coqNot(c)
+	case a == "false":
+		return "(" + coqNot(c) + " && " + b + ")"
+	case a == "true":
+		return "(" + c + " || " + b + ")"
+	case b == "false":
+		return "(" + c + " && " + a + ")"
+	case b == "true":
+		return "(" + coqNot(c) + " || " + a + ")"
+	}
+	return "((" + c + " && " + a + ") || (" + coqNot(c) + " && " + b + "))"
+}
+
 func (c truthyCtx) isLenRecv(e ast.Expr) bool {
 	call, ok := unparen(e).(*ast.CallExpr)
 	return ok && len(call.Args) == 1 && isIdent(call.Fun, "len") && c.recvAs(call.Args[0], "string")
@@ -231,18 +307,19 @@ func (g *gen) valueTruthy() {
 		fd := g.method(valueRel, k, "Truthy")
 		body := ""
 		ok := false
-		if fd != nil && fd.Body != nil && len(fd.Body.List) == 1 {
-			if rs, isRet := fd.Body.List[0].(*ast.ReturnStmt); isRet && len(rs.Results) == 1 {
-				c := truthyCtx{kind: k, recv: recvName(fd)}
-				if c.recv == "" {
-					c.recv = "\x00none"
-				}
-				body, ok = c.truthyExpr(rs.Results[0])
+		if fd != nil && fd.Body != nil {
+			c := truthyCtx{kind: k, recv: recvName(fd)}
+			if c.recv == "" {
+				c.recv = "\x00none"
 			}
+			body, ok = c.truthyBody(fd.Body.List)
 		}
 		if !ok {
-			g.fail("data/value.go: (%s).Truthy is not `return <translatable boolean expression>`", k)
+			g.fail("data/value.go: (%s).Truthy is not a chain of `if <translatable boolean expression> { return ... }` ending in `return <translatable boolean expression>`", k)
 			body = "false (* UNTRANSLATABLE *)"
+		}
+		if ok {
+			body = keepAtomSpelling(name, body, []string{"x", "is_zero", "is_nan", "is_empty"})
 		}
 		g.p("Definition %s%s : bool := %s.\n", name, truthyParams[k], body)
 		js[name] = body
@@ -336,7 +413,297 @@ func typeAssert(s ast.Stmt, param string) (lhs0, lhs1, typ string, ok bool) {
 	return l0.Name, l1.Name, tid.Name, true
 }
 
-// equalsRows translates one Equals method into other-kind -> mode (missing = 0).
+// eqVal is what an expression of an Equals body reduces to once the operand's kind is fixed.
+type eqVal struct {
+	isCmp bool
+	b     bool // the constant, when !isCmp
+	mode  int  // the comparison, when isCmp
+}
+
+// eqEnv: the partial-evaluation state for one operand kind K.
+type eqEnv struct {
+	c     equalsCtx
+	param string            // the operand (an interface value of kind K)
+	K     string            // its kind
+	bools map[string]bool   // comma-ok results
+	bound map[string]string // variable -> kind it holds (assertion succeeded / clause selected); "" = do not use
+}
+
+// substIdents copies an expression replacing identifiers (helper inlining); nil = a node kind it does not know.
+func substIdents(e ast.Expr, m map[string]ast.Expr) ast.Expr {
+	switch x := e.(type) {
+	case *ast.Ident:
+		if r, ok := m[x.Name]; ok {
+			return r
+		}
+		return x
+	case *ast.BasicLit:
+		return x
+	case *ast.ParenExpr:
+		if in := substIdents(x.X, m); in != nil {
+			return &ast.ParenExpr{X: in}
+		}
+	case *ast.UnaryExpr:
+		if in := substIdents(x.X, m); in != nil {
+			return &ast.UnaryExpr{Op: x.Op, X: in}
+		}
+	case *ast.BinaryExpr:
+		l, r := substIdents(x.X, m), substIdents(x.Y, m)
+		if l != nil && r != nil {
+			return &ast.BinaryExpr{X: l, Op: x.Op, Y: r}
+		}
+	case *ast.SelectorExpr:
+		if in := substIdents(x.X, m); in != nil {
+			return &ast.SelectorExpr{X: in, Sel: x.Sel}
+		}
+	case *ast.CallExpr:
+		f := substIdents(x.Fun, m)
+		if f == nil {
+			return nil
+		}
+		var args []ast.Expr
+		for _, a := range x.Args {
+			in := substIdents(a, m)
+			if in == nil {
+				return nil
+			}
+			args = append(args, in)
+		}
+		return &ast.CallExpr{Fun: f, Args: args}
+	}
+	return nil
+}
+
+// inlineHelper: f(a, b) with f a function of value.go whose body is `return <expr>` and whose arguments
+// are identifiers -> <expr> with the parameters replaced; otherwise e itself.
+func (en *eqEnv) inlineHelper(e ast.Expr) ast.Expr {
+	call, ok := unparen(e).(*ast.CallExpr)
+	if !ok {
+		return e
+	}
+	id, ok := call.Fun.(*ast.Ident)
+	if !ok {
+		return e
+	}
+	fd := en.c.g.funcDecl(valueRel, id.Name)
+	if fd == nil || fd.Body == nil || len(fd.Body.List) != 1 || fd.Type.Params == nil {
+		return e
+	}
+	ret, ok := fd.Body.List[0].(*ast.ReturnStmt)
+	if !ok || len(ret.Results) != 1 {
+		return e
+	}
+	var params []string
+	for _, f := range fd.Type.Params.List {
+		for _, n := range f.Names {
+			params = append(params, n.Name)
+		}
+	}
+	if len(params) != len(call.Args) {
+		return e
+	}
+	m := map[string]ast.Expr{}
+	for i, a := range call.Args {
+		if _, ok := unparen(a).(*ast.Ident); !ok {
+			return e
+		}
+		m[params[i]] = unparen(a)
+	}
+	if r := substIdents(ret.Results[0], m); r != nil {
+		return r
+	}
+	return e
+}
+
+func (en *eqEnv) expr(e ast.Expr) (eqVal, bool) {
+	e = unparen(e)
+	switch x := e.(type) {
+	case *ast.Ident:
+		if x.Name == "true" || x.Name == "false" {
+			return eqVal{b: x.Name == "true"}, true
+		}
+		if v, ok := en.bools[x.Name]; ok {
+			return eqVal{b: v}, true
+		}
+		return eqVal{}, false
+	case *ast.UnaryExpr:
+		if x.Op == token.NOT {
+			v, ok := en.expr(x.X)
+			if !ok || v.isCmp {
+				return eqVal{}, false
+			}
+			return eqVal{b: !v.b}, true
+		}
+		return eqVal{}, false
+	case *ast.BinaryExpr:
+		if x.Op == token.LAND || x.Op == token.LOR {
+			l, ok := en.expr(x.X)
+			if !ok || l.isCmp {
+				return eqVal{}, false // a comparison on the left of && / || is not one of the modes
+			}
+			if l.b == (x.Op == token.LOR) {
+				return l, true // short circuit: the right operand is not evaluated
+			}
+			return en.expr(x.Y)
+		}
+	}
+	// one comparison of the receiver with a variable that holds the operand at kind K
+	e = en.inlineHelper(e)
+	for o, k := range en.bound {
+		if k == en.K {
+			if m, ok := en.c.cmpMode(e, o, k); ok {
+				switch m {
+				case 0:
+					return eqVal{b: false}, true
+				case 4:
+					return eqVal{b: true}, true
+				}
+				return eqVal{isCmp: true, mode: m}, true
+			}
+		}
+	}
+	return eqVal{}, false
+}
+
+// assertStmt handles `a, b := <param>.(T)`.
+func (en *eqEnv) assertStmt(s ast.Stmt) bool {
+	l0, l1, typ, ok := typeAssert(s, en.param)
+	if !ok || kindCode(typ) < 0 {
+		return false
+	}
+	hit := typ == en.K
+	if l1 != "_" {
+		en.bools[l1] = hit
+		delete(en.bound, l1)
+	}
+	if l0 != "_" {
+		delete(en.bools, l0)
+		if hit {
+			en.bound[l0] = typ
+		} else {
+			en.bound[l0] = "" // the zero value of T: a comparison with it is not one of the modes
+		}
+	}
+	return true
+}
+
+// stmts evaluates a statement list; returned = it executed a return statement.
+func (en *eqEnv) stmts(st []ast.Stmt) (v eqVal, returned, ok bool) {
+	for _, s := range st {
+		switch s := s.(type) {
+		case *ast.ReturnStmt:
+			if len(s.Results) != 1 {
+				return eqVal{}, false, false
+			}
+			v, ok := en.expr(s.Results[0])
+			return v, true, ok
+		case *ast.AssignStmt:
+			if !en.assertStmt(s) {
+				return eqVal{}, false, false
+			}
+		case *ast.IfStmt:
+			if s.Init != nil && !en.assertStmt(s.Init) {
+				return eqVal{}, false, false
+			}
+			c, ok := en.expr(s.Cond)
+			if !ok || c.isCmp {
+				return eqVal{}, false, false
+			}
+			var branch []ast.Stmt
+			if c.b {
+				branch = s.Body.List
+			} else {
+				switch e := s.Else.(type) {
+				case nil:
+				case *ast.BlockStmt:
+					branch = e.List
+				case *ast.IfStmt:
+					branch = []ast.Stmt{e}
+				default:
+					return eqVal{}, false, false
+				}
+			}
+			v, ret, ok := en.stmts(branch)
+			if !ok {
+				return eqVal{}, false, false
+			}
+			if ret {
+				return v, true, true
+			}
+		case *ast.TypeSwitchStmt:
+			if s.Init != nil {
+				return eqVal{}, false, false
+			}
+			o := ""
+			var ta *ast.TypeAssertExpr
+			switch a := s.Assign.(type) {
+			case *ast.AssignStmt:
+				if len(a.Lhs) != 1 || len(a.Rhs) != 1 {
+					return eqVal{}, false, false
+				}
+				id, isId := a.Lhs[0].(*ast.Ident)
+				if !isId {
+					return eqVal{}, false, false
+				}
+				o = id.Name
+				ta, _ = a.Rhs[0].(*ast.TypeAssertExpr)
+			case *ast.ExprStmt:
+				ta, _ = a.X.(*ast.TypeAssertExpr)
+			}
+			if ta == nil || ta.Type != nil || !isIdent(ta.X, en.param) {
+				return eqVal{}, false, false
+			}
+			var chosen, deflt *ast.CaseClause
+			seen := map[string]bool{}
+			for _, cc := range s.Body.List {
+				cl := cc.(*ast.CaseClause)
+				if cl.List == nil {
+					deflt = cl
+					continue
+				}
+				for _, t := range cl.List {
+					tid, isId := t.(*ast.Ident)
+					if !isId || kindCode(tid.Name) < 0 || seen[tid.Name] {
+						return eqVal{}, false, false // nil, other types, duplicates: not modelled
+					}
+					seen[tid.Name] = true
+					if tid.Name == en.K && chosen == nil {
+						chosen = cl
+					}
+				}
+			}
+			if chosen == nil {
+				chosen = deflt
+			}
+			if chosen == nil {
+				continue
+			}
+			if o != "" {
+				delete(en.bools, o)
+				if len(chosen.List) == 1 {
+					en.bound[o] = en.K
+				} else {
+					en.bound[o] = "" // several types or default: the variable keeps the interface type
+				}
+			}
+			v, ret, ok := en.stmts(chosen.Body)
+			if o != "" {
+				delete(en.bound, o)
+			}
+			if !ok {
+				return eqVal{}, false, false
+			}
+			if ret {
+				return v, true, true
+			}
+		default:
+			return eqVal{}, false, false
+		}
+	}
+	return eqVal{}, false, true
+}
+
+// equalsRows translates one Equals method into other-kind -> mode.
 func (g *gen) equalsRows(k string) (map[string]int, bool) {
 	fd := g.method(valueRel, k, "Equals")
 	if fd == nil || fd.Body == nil || fd.Type.Params == nil || len(fd.Type.Params.List) != 1 || len(fd.Type.Params.List[0].Names) != 1 {
@@ -348,101 +715,22 @@ func (g *gen) equalsRows(k string) (map[string]int, bool) {
 		c.recv = "\x00none"
 	}
 	rows := map[string]int{}
-	st := fd.Body.List
-	// shape (a):  _, ok := other.(T); return ok
-	if len(st) == 2 {
-		if l0, l1, typ, ok := typeAssert(st[0], param); ok && l0 == "_" && kindCode(typ) >= 0 {
-			if r, ok := isReturn(st[1]); ok && isIdent(r, l1) {
-				rows[typ] = 4
-				return rows, true
-			}
+	for _, K := range valueKinds {
+		en := &eqEnv{c: c, param: param, K: K, bools: map[string]bool{}, bound: map[string]string{}}
+		v, returned, ok := en.stmts(fd.Body.List)
+		if !ok || !returned {
+			return nil, false
+		}
+		switch {
+		case v.isCmp:
+			rows[K] = v.mode
+		case v.b:
+			rows[K] = 4
+		default:
+			rows[K] = 0
 		}
 	}
-	// final statement must be `return false`
-	if len(st) != 2 {
-		return nil, false
-	}
-	if r, ok := isReturn(st[1]); !ok || !isIdent(r, "false") {
-		return nil, false
-	}
-	switch s := st[0].(type) {
-	case *ast.IfStmt:
-		// shape (b): if o, ok := other.(T); ok { return CMP }
-		if s.Init == nil || s.Else != nil || len(s.Body.List) != 1 {
-			return nil, false
-		}
-		o, okv, typ, ok := typeAssert(s.Init, param)
-		if !ok || !isIdent(s.Cond, okv) || kindCode(typ) < 0 {
-			return nil, false
-		}
-		r, ok := isReturn(s.Body.List[0])
-		if !ok {
-			return nil, false
-		}
-		mode, ok := c.cmpMode(r, o, typ)
-		if !ok {
-			return nil, false
-		}
-		rows[typ] = mode
-		return rows, true
-	case *ast.TypeSwitchStmt:
-		// shape (c): switch o := other.(type) { case T: return CMP }
-		if s.Init != nil {
-			return nil, false
-		}
-		o := "\x00none"
-		var ta *ast.TypeAssertExpr
-		switch a := s.Assign.(type) {
-		case *ast.AssignStmt:
-			if len(a.Lhs) != 1 || len(a.Rhs) != 1 {
-				return nil, false
-			}
-			o = a.Lhs[0].(*ast.Ident).Name
-			ta, _ = a.Rhs[0].(*ast.TypeAssertExpr)
-		case *ast.ExprStmt:
-			ta, _ = a.X.(*ast.TypeAssertExpr)
-		}
-		if ta == nil || ta.Type != nil || !isIdent(ta.X, param) {
-			return nil, false
-		}
-		for _, cc := range s.Body.List {
-			cl := cc.(*ast.CaseClause)
-			if len(cl.Body) != 1 {
-				return nil, false
-			}
-			r, ok := isReturn(cl.Body[0])
-			if !ok {
-				return nil, false
-			}
-			if cl.List == nil { // default: must be return false
-				if !isIdent(r, "false") {
-					return nil, false
-				}
-				continue
-			}
-			if len(cl.List) != 1 { // with several types the bound variable keeps the interface type
-				if !isIdent(r, "false") && !isIdent(r, "true") {
-					return nil, false
-				}
-			}
-			for _, t := range cl.List {
-				tid, ok := t.(*ast.Ident)
-				if !ok || kindCode(tid.Name) < 0 {
-					return nil, false
-				}
-				if _, dup := rows[tid.Name]; dup {
-					return nil, false
-				}
-				mode, ok := c.cmpMode(r, o, tid.Name)
-				if !ok {
-					return nil, false
-				}
-				rows[tid.Name] = mode
-			}
-		}
-		return rows, true
-	}
-	return nil, false
+	return rows, true
 }
 
 func (g *gen) valueEquals() {
